@@ -3,5 +3,5 @@
 EXTENDS Mat
 KC_Cases == <<[name |-> "s", A |-> FromInts(<<<<2, -1>>, <<-1, 2>>>>), herm |-> TRUE, hasEig |-> TRUE,
                V |-> FromInts(<<<<1, 1>>, <<1, -1>>>>), lam |-> <<<<1, 0>>, <<3, 0>>>>, sup |-> <<0>>,
-               v |-> <<<<1, 0>>, <<0, 0>>>>]>>
+               v |-> <<<<1, 0>>, <<0, 0>>>>, exact |-> FALSE]>>
 ====
